@@ -138,3 +138,6 @@ package bpv7
 
 // A block with the PRoPHET type code carries a *ProphetBlock once that type is registered (NewProphet does so).
 // govc:spec prophetTyped(b Bundle) bool = forall j int :: 0 <= j && j < len(b.CanonicalBlocks) ==> (b.CanonicalBlocks[j].Value.BlockTypeCode() == 194 ==> is(b.CanonicalBlocks[j].Value, *ProphetBlock))
+
+// At most one block per type (C02) - here for the bundle age block.
+// govc:spec ageUnique(b Bundle) bool = forall j, k int :: 0 <= j && j < len(b.CanonicalBlocks) && 0 <= k && k < len(b.CanonicalBlocks) && b.CanonicalBlocks[j].Value.BlockTypeCode() == 7 && b.CanonicalBlocks[k].Value.BlockTypeCode() == 7 ==> j == k
